@@ -419,6 +419,17 @@ def errors(g, thorough, count):
     for a, b in muts:
         out.append(base.replace(a, b, 1))
     out.append(base.replace("call f", "jmp late", 1) + "def late {\ninc dx\n}\n")
+    # OFFSET of a label used as a byte constant, the label lying at 255 / 256 / 257
+    for pad in (254, 255, 256, 257, 65535):
+        for use in ("mov al, offset v", "shl ax, offset v", "mov byte [bx], offset v", "int offset v", "and al, offset v", "db offset v"):
+            c = base.replace("v: db 5", "pad: db [%d]\nv: db 5" % pad, 1)
+            out.append(c.replace("w: dw 7", "w: dw 7\n" + use, 1) if use.startswith("db") else c.replace("mov ax, 1", use, 1))
+    # an error that arises inside a macro expansion (the diagnostic belongs to the use, not to a place in the expanded text)
+    mlib = "macro addn(a,b) -> add a, b <-\nmacro twice(r) -> addn(r, r) addn(r, bl) <-\nmacro setb(q) -> mov al, q <-\nmacro jj(l) -> jmp l <-\n"
+    for use in ("addn(ax, bl)", "setb(300)", "twice(cx)", "addn(ax)", "setb(word [bx])", "inc cx\n  addn(al, word w)", "jj(nolabel)", "jj(v)",
+                "jj(aa)\njj(bb)\njj(cc)\njj(dd)\njj(ee)\njj(ff)", "jj(zz)\njj(yy)\njj(xx)\njmp ww\njj(vv)"):
+        out.append(mlib + base.replace("mov ax, 1", "mov ax, 1\n" + use, 1))
+        out.append(mlib + base.replace("inc bx", "inc bx\n" + use, 1))
     for a, n_ in [(1048575, 0), (1048575, 1), (0xFFFF0, 15), (0xFFFF0, 16), (0, 1048575), (0, 1048576)]:
         out.append(base.replace("mov ax, 1", "print mem %d : %d" % (a, n_), 1))
     # boundary values of the constant ranges (accepted / rejected by one)
@@ -756,8 +767,12 @@ def cli_cases(g, group, thorough):
         # DS-relative ranges whose count does not fit 16 bits, and constants beyond 2^20, in every radix
         for seg in (0, 1, 0xF000, 0xFFFF):
             for cnt in ("65535", "65536", "0x10000", "70000", "0b10000000000000000", "0x100003", "1048575", "1048576", "0xFFFFF", "2097155"):
-                out.append(("-", f"x: db 7\nstart:\nmov ax, {seg}\nmov ds, ax\nmov byte [3], 0x5A\nprint mem : {cnt}\nprint reg\n", ""))
-                out.append(("i", f"start:\nmov ax, {seg}\nmov ds, ax\nnop\n", f"n\nn\nprint mem : {cnt}\nn\n"))
+                # `: n` = the data segment's first n+1 bytes: whenever that range lies inside the 1 MB space the dump must be
+                # there, and it shows the byte 5A stored at DS:3 (no register holds 5A)
+                n_val = int(cnt, 0)
+                inside = seg * 16 + n_val < 1048576
+                out.append(("-", f"x: db 7\nstart:\nmov ax, {seg}\nmov ds, ax\nmov byte [3], 0x5A\nprint mem : {cnt}\nprint reg\n", "") + (("5A",) if inside else ()))
+                out.append(("i", f"start:\nmov ax, {seg}\nmov ds, ax\nmov byte [3], 0x5A\nnop\n", f"n\nn\nn\nprint mem : {cnt}\nn\n") + (("5A",) if inside else ()))
     elif group == "diag":
         base_cases = errors(g, thorough, 0)
         for c in base_cases:
@@ -977,6 +992,25 @@ def main():
                 strip = lambda t: re.sub(r";.*\n?", "\n", t)      # the driver's comment stripping (the library API gets stripped text)
                 sys.stdout.write("asm2 " + enc(strip(a)) + " " + enc(strip(b)) + " " + ("-" if not vals else ".".join(map(str, vals))) + "\n")
         return
+    if group == "reuse":
+        # C19: one parser object and one (cleared) context for two sources in a row, against fresh objects
+        pool = errors(g, thorough, 0) + macros(g, thorough, 300 if thorough else 80)
+        pairs = []
+        for _ in range(3000 if thorough else 400):
+            pairs.append((g.rng.choice(pool), g.rng.choice(pool)))
+        for c in macros(g, thorough, 300 if thorough else 60):
+            stripped = "\n".join(l for l in c.split("\n") if not l.startswith("macro "))
+            pairs.append((stripped, c))            # first every macro is undefined, then the same names are defined and used
+            pairs.append((c, stripped))
+        pairs.append(("start:\nfoo(ax)\nhlt\n", "macro foo(a) -> inc a <-\nstart:\nfoo(ax)\nhlt\n"))
+        pairs.append(("macro foo(a) -> foo(a) <-\nstart:\nfoo(ax)\nhlt\n", "macro foo(a) -> inc a <-\nstart:\nfoo(ax)\nhlt\n"))
+        pairs.append(("macro foo(a) -> mov a, <-\nstart:\nfoo(ax)\nhlt\n", "macro foo(a) -> inc a <-\nstart:\nfoo(ax)\nhlt\n"))
+        pairs.append(("x: db 1\ny: dw [70000]\nstart:\n", "y: db 2\nstart:\nmov ax, offset y\n"))
+        pairs.append(("def f {\ninc ax\n}\nstart:\ncall f\n", "start:\ncall f\n"))
+        for i, (a, b) in enumerate(pairs):
+            if i % nshards == shard:
+                sys.stdout.write("asmre " + enc(re.sub(r";.*\n?", "\n", a)) + " " + enc(re.sub(r";.*\n?", "\n", b)) + "\n")
+        return
     if group == "macroref":
         for i, (a, b) in enumerate(macroref(g, thorough, 4000 if thorough else 500)):
             if i % nshards == shard:
@@ -1016,9 +1050,10 @@ def main():
     kind = os.environ.get("VERIF_L3_KIND", "asm")
     w = sys.stdout.write
     if kind == "cli":
-        for i, (flag, src, stdin) in enumerate(cli_cases(g, group, thorough)):
+        for i, case in enumerate(cli_cases(g, group, thorough)):
+            flag, src, stdin = case[:3]
             if i % nshards == shard:
-                w("cli " + flag + " | " + enc(src) + " | " + enc(stdin) + "\n")
+                w("cli " + flag + " | " + enc(src) + " | " + enc(stdin) + (" | expect=" + enc(case[3]) if len(case) > 3 else "") + "\n")
         return
     for i, c in enumerate(cases):
         if i % nshards == shard:
